@@ -216,7 +216,7 @@ class C02(TreeCheck):
     obligations = [("main", "L2BndS", "parseBlocks_bounds"), ("main", "C01a", "C01_ordered"), ("main", "NoPanicAll", "parseBlocks_no_panic"),
                    ("main", "BlockSpans", "parseBlocks_block_spans"), ("main", "BlockSpans", "parseFull_block_spans"),
                    ("main", "InlineSpans", "parseInlines_spans"), ("main", "InlineSpans", "parseInlines_spans_reduction"), ("main", "InlineSpans", "parseInlines_spans_literal_false"),
-                   ("main", "SpanHyp", "entriesOKX_eq"), ("main", "SpanHyp", "rewrite_roots_inline_spans"), ("main", "EntriesOK", "parseBlocks_entries_basic"), ("main", "ComposeSpans2", "parseBlocks_inline_spans"), ("main", "ComposeSpans2", "parseBlocks_entriesOKroots"), ("main", "ComposeSpans2", "parseBlocks_paraTail"), ("main", "ComposeSpans", "parseBlocks_inline_spans_partial"), ("main", "ComposeSpans", "parseBlocks_entriesOKroots_partial"), ("main", "Total", "parseBlocks_total")]
+                   ("main", "SpanHyp", "entriesOKX_eq"), ("main", "SpanHyp", "rewrite_roots_inline_spans"), ("main", "EntriesOK", "parseBlocks_entries_basic"), ("main", "ComposeC02", "C02_of_structure_and_boundaries"), ("main", "ComposeC02", "C02_structure_partial"), ("main", "ComposeSpans2", "parseBlocks_inline_spans"), ("main", "ComposeSpans2", "parseBlocks_entriesOKroots"), ("main", "ComposeSpans2", "parseBlocks_paraTail"), ("main", "ComposeSpans", "parseBlocks_inline_spans_partial"), ("main", "ComposeSpans", "parseBlocks_entriesOKroots_partial"), ("main", "Total", "parseBlocks_total")]
     proj = staticmethod(proj_spans)
     what = "span structure"
 
